@@ -10,3 +10,5 @@ pub mod tokio_io;
 #[cfg(target_os = "linux")]
 pub mod uring;
 pub mod utils;
+#[cfg(qcow2_rs_verif)]
+pub mod verif;
